@@ -155,6 +155,29 @@ def replay(p):
                 if find(n) == find(tgt) and v != 9.5:
                     bad.append("%s tied to %s reads %s after set(%s, 9.5)" % (n, tgt, v, tgt))
             return {"reproduced": bool(bad), "bad": bad[:6], "seq": p["seq"]}
+        if kind == "shared_r":
+            import tensorflow as tf
+            from tf_pwa.variable import VarsManager
+
+            ang = lambda k: 2 * math.atan(float(m.get("u_" + k, 0.3)))
+            vm = VarsManager(dtype=tf.float64)
+            for nme in ("p", "q", "u"):
+                vm.add_complex_var(nme, polar=True)
+            vm.add_real_var("t1", value=1.0)
+            vm.add_real_var("t2", value=1.0)
+            vm.set_share_r(["p", "q"])
+            vm.set_same(["t1", "t2"])
+            vm.set("pr", float(m.get("r", -0.7)))
+            vm.set("pi", ang("phi_p"))
+            vm.set("qi", ang("phi_q"))
+            vm.set("ur", float(m.get("ru", -0.4)))
+            vm.set("ui", ang("phi_u"))
+            z = lambda k: float(vm.variables[k + "r"].numpy()) * complex(math.cos(float(vm.variables[k + "i"].numpy())), math.sin(float(vm.variables[k + "i"].numpy())))
+            zb = {k: z(k) for k in "pqu"}
+            vm.standard_complex()
+            za = {k: z(k) for k in "pqu"}
+            bad = ["%s: %s -> %s" % (k, zb[k], za[k]) for k in "pqu" if abs(zb[k] - za[k]) > 1e-9]
+            return {"reproduced": bool(bad), "bad": bad}
         if kind == "std_range":
             import tensorflow as tf
             from tf_pwa.variable import VarsManager
